@@ -71,12 +71,17 @@ ARG_SRC.update({"k_sup": "'\\u00b2'", "k_circ": "'\\u2461'", "k_arab": "'\\u0663
 # ---- hostile classes (C04.tla HostileSet): arguments with behaviour or structure ---------------------------------------
 # what one mutation does to the array t (MutKinds)
 MUT_BODY = {"push": "t.push(0);", "pop": "t.pop();", "len0": "t.length = 0;", "splice": "t.splice(0, 1);", "sort": "t.sort();",
-            "rev": "t.reverse();", "store": "t[t.length + 3] = 1;", "shift": "t.shift();"}
+            "rev": "t.reverse();", "store": "t[t.length + 3] = 1;", "shift": "t.shift();",
+            # (round 4, C04.tla ObjMutKinds) the set of properties of ANY object changes: a new name is added, the first enumerable one deleted
+            "oadd": "t['k' + __n] = 1;", "odel": "for (var __k in t) { delete t[__k]; break; }"}
+OBJ_MUT = ("oadd", "odel")
 # __hit(m, self, args): mutate whatever array is being iterated - the receiver of the call, the callback's this (the holder a
 # reviver / replacer walks), the array handed over as third / fourth argument
 PRE_BASE = ("var __n = 0; function __hit(m, self, args) { if (typeof __r !== 'undefined') { m(__r); } m(self); m(args[2]); m(args[3]); } ")
 PRE_MUT = ("function __mut_%(k)s(t) { if (t !== null && typeof t === 'object' && typeof t.push === 'function' && __n < %(budget)d) "
            "{ __n++; %(body)s } } ")
+PRE_MUT_OBJ = ("function __mut_%(k)s(t) { if (t !== null && typeof t === 'object' && __n < %(budget)d) "
+               "{ __n++; %(body)s } } ")
 HOOKS = ("{valueOf: function () { __hit(__mut_%(k)s, %(self)s, arguments); return 1 }, "
          "toString: function () { __hit(__mut_%(k)s, %(self)s, arguments); return 'x' }, "
          "toJSON: function () { __hit(__mut_%(k)s, %(self)s, arguments); return 1 }}")
@@ -126,6 +131,10 @@ def hostile(a, params):
         # an array whose second element has the hooks and whose third element is a getter, all mutating the array itself
         return ("(function () { var a = [3, 0, 2]; a[1] = %s; try { Object.defineProperty(a, 2, {get: function () { __mut_%s(a); return 2 }, "
                 "configurable: true, enumerable: true}); } catch (e) {} return a })()" % (HOOKS % {"k": m, "self": "a"}, m)), ["base", "mut_" + m], []
+    if kind == "hobj" and m in OBJ_MUT:
+        # a plain object whose member h has the hooks and whose member g is a getter, all changing the object's own set of properties
+        return ("(function () { var a = {a: 1, h: 0, g: 0, z: 2}; a.h = %s; try { Object.defineProperty(a, 'g', {get: function () { __mut_%s(a); return 2 }, "
+                "configurable: true, enumerable: true}); } catch (e) {} return a })()" % (HOOKS % {"k": m, "self": "a"}, m)), ["base", "mut_" + m], []
     if a == "cyc_arr":
         return "(function () { var a = [1]; a.push(a); return a })()", [], []
     if a == "cyc_obj":
@@ -145,7 +154,7 @@ def prelude(pieces, params):
         if pc == "base":
             out.append(PRE_BASE)
         elif pc.startswith("mut_"):
-            out.append(PRE_MUT % {"k": pc[4:], "budget": params["MutBudget"], "body": MUT_BODY[pc[4:]]})
+            out.append((PRE_MUT_OBJ if pc[4:] in OBJ_MUT else PRE_MUT) % {"k": pc[4:], "budget": params["MutBudget"], "body": MUT_BODY[pc[4:]]})
         elif pc == "deep_arr":
             out.append("var __deep_arr = []; for (var __i = 0; __i < %d; __i++) { __deep_arr = __nl(__deep_arr); } " % (params["DeepLevels"] // DEEP_CHUNK))
         elif pc == "deep_obj":
@@ -186,7 +195,7 @@ RECEIVERS = {
     "arr0": "[]", "str0": "''", "numnan": "(NaN)", "numninf": "(-Infinity)", "nume21": "(1e21)",
     # hostile receivers (C04.tla HostileReceivers): @<class> = the text of the hostile class
     "r_cyc_arr": "@cyc_arr", "r_cyc_obj": "@cyc_obj", "r_deep_arr": "@deep_arr", "r_deep_obj": "@deep_obj",
-    "r_harr_push": "@harr_push", "r_harr_len0": "@harr_len0", "r_digits": "@t_dec", "r_p53": "(9007199254740992)",
+    "r_harr_push": "@harr_push", "r_harr_len0": "@harr_len0", "r_hobj_oadd": "@hobj_oadd", "r_hobj_odel": "@hobj_odel", "r_digits": "@t_dec", "r_p53": "(9007199254740992)",
     "r_max": "(1.7976931348623157e308)",
 }
 
@@ -518,6 +527,22 @@ def is_object_result(v):
     return not (v is None or isinstance(v, (bool, int, float, str)))
 
 
+def use_program(case, api, params):
+    """the statements run on an object a call returned, each under its own try / catch: C04.tla UseOps, the operator forms with the
+    result as receiver (UseOpSet: template over @R @0 @1, operand classes), and the result as argument of every discovered function
+    of the namespaces (UseArgShapes x UseNamespaces: @F = namespace.function)"""
+    stmts = [u.replace("@U", "__u") for u in case.get("use", [])]
+    for uo in sorted(case.get("useops", []), key=lambda u: (u["n"], u["a"])):
+        body = uo["t"].replace("@R", "__u")
+        for ai, a in enumerate(uo["a"]):
+            body = body.replace("@%d" % ai, arg_src(a))
+        stmts.append(body + ";")
+    for ua in case.get("useargs", []):
+        for fn in discover(api, ua["ns"], params):
+            stmts.append(ua["t"].replace("@F", RECEIVERS[ua["ns"]] + "." + fn).replace("@U", "__u") + ";")
+    return "".join("try { %s } catch (__e) {} " % st for st in stmts)
+
+
 def grid(case, api):
     """every discovered function x the case's vectors, every operator form x the vectors of its arity; when a call returns an
     object, the use statements (C04.tla UseOps) are run on it in the same context"""
@@ -533,7 +558,8 @@ def grid(case, api):
         forms = [case["form"]]
         fns = [case["only"]] if not case["only"].startswith("op:") else []
         ops = [op for op in ops if "op:" + op["n"] == case["only"]]
-    use_src = "".join("try { %s } catch (__e) {} " % u.replace("@U", "__u") for u in case.get("use", []))
+    use_src = use_program(case, api, params)
+    fin_srcs = [u.replace("@U", "__u") for u in case.get("usefin", [])]
     oppairs = {tuple(v) for v in case.get("oppairs", [])}
     usevecs = {tuple(v) for v in case.get("usevecs", [])}
     compiling, nested = set(case.get("compiling", [])), set(case.get("nested", []))
@@ -585,8 +611,15 @@ def grid(case, api):
             use = run_patient(api, lambda: harness_eval(ctx, use_src))
             use.pop("pv", None)
             use = outcome_record(use)
+            # the uncaught statements (C04.tla UseFinal): each an evaluation of its own in the same context
+            fin = []
+            for fsrc in fin_srcs:
+                fo = run_patient(api, lambda fsrc=fsrc: harness_eval(ctx, fsrc))
+                fo.pop("pv", None)
+                fin.append(outcome_record(fo))
         r = {"id": case["id"], "recv": recv, "fname": fn, "form": form, "args": vec, "src": shown[:300], "out": outcome_record(out)}
         if use is not None:
             r["use"] = use
+            r["fin"] = fin
         res.append(r)
     return res
